@@ -41,10 +41,14 @@ def _pykey2(key):
 
 
 def real2(arr, key):
+    before = (id(arr.data), tuple(id(e) for e in arr.data), tuple(arr.shape))
     try:
-        return _canon(arr[_pykey2(key)])
+        out = _canon(arr[_pykey2(key)])
     except Exception as e:
-        return ["err", core.err_name(e)]
+        out = ["err", core.err_name(e)]
+    if (id(arr.data), tuple(id(e) for e in arr.data), tuple(arr.shape)) != before:
+        return ["err", "SourceArrayMutated"]      # indexing must leave the indexed array alone
+    return out
 
 
 def real1(n, k, boolean=True):
